@@ -17,7 +17,7 @@ PID = "C20"
 LEVEL = "exploration"
 RULE = ("Hypothesis draws 5..120 (thorough ..400) int16 observations (classes random / seasonal / constant / linear in day number), mark "
         "spacings regular 5/8/10/16 days or irregular 1..20 days, 0..15 lead and tail days (daily length <= 4000), and contiguous daily "
-        "labelings (pentad-, dekad-, month-like or irregular runs), through ops.tinterpolate and DataArray.hdc.whit.whitint. Oracle: "
+        "labelings (pentad-, dekad-, month-like or irregular runs; label values ascending, descending or wrapping like dekad-of-year), through ops.tinterpolate and DataArray.hdc.whit.whitint. Oracle: "
         "independent daily-curve model (scatter, LAPACK solve with lambda=1e-5 and weight only on marks, means over runs of equal labels, "
         "half-even rounding; tie width calibrated from two LAPACK solvers); constant -> that constant in every period; linear -> the "
         "exact period means of the line computed in rationals; template and labels bit-identical after the call. Non-trivial: not the "
@@ -35,18 +35,28 @@ def _layout(case):
     template[pos] = 1.0
     labels = np.zeros(m, dtype="int32")
     runs = case["runs"]
-    i, lab = 0, case.get("label0", 0)
+    i, k = 0, 0
+    l0, step, mode = case.get("label0", 0), case.get("label_step", 1), case.get("label_mode", "ascending")
+
+    def lab(k):
+        # distinct label per run; the order of the numeric values is not part of the contract (dekad-of-year wraps 36 -> 1)
+        if mode == "descending":
+            return l0 + 5000 - step * k
+        if mode == "wrap":
+            return (l0 + k) % 400 + 1
+        return l0 + step * k
+
     bounds = []
     for r in runs:
         j = min(m, i + r)
-        labels[i:j] = lab
+        labels[i:j] = lab(k)
         bounds.append((i, j - 1))
-        lab += case.get("label_step", 1)
+        k += 1
         i = j
         if i >= m:
             break
     if i < m:
-        labels[i:] = lab
+        labels[i:] = lab(k)
         bounds.append((i, m - 1))
     return np.array(pos), template, labels, bounds
 
@@ -141,7 +151,8 @@ def tcase(draw, nmax, accessor=False):
         runs = [first] + [ln] * (m // ln + 1)
     kind = draw(st.sampled_from(["random", "seasonal", "seasonal", "constant", "linear"]))
     case = {"gaps": gaps, "lead": lead, "tail": tail, "runs": runs, "kind": kind, "spacing": sp, "labeling": lab,
-            "label0": draw(st.sampled_from([0, 1, 36, 2000])), "label_step": draw(st.sampled_from([1, 1, 3]))}
+            "label0": draw(st.sampled_from([0, 1, 36, 2000, 395])), "label_step": draw(st.sampled_from([1, 1, 3])),
+            "label_mode": draw(st.sampled_from(["ascending", "ascending", "wrap", "descending"]))}
     pos = [lead]
     for g in gaps:
         pos.append(pos[-1] + g)
@@ -174,7 +185,7 @@ def run(ctx):
         why = sub_kernel(case)
         if why:
             rec.discard("kernel", why)
-        rec.case("kernel", case, nontrivial=why is None, cls=["kind:" + case["kind"], "spacing:" + case["spacing"], "labeling:" + case["labeling"]])
+        rec.case("kernel", case, nontrivial=why is None, cls=["kind:" + case["kind"], "spacing:" + case["spacing"], "labeling:" + case["labeling"], "labels:" + case["label_mode"]])
 
     ctx.given("kernel", tcase(ctx.n(120, 400)), ctx.n(2500, 25000), fn=f_k)
 
